@@ -202,7 +202,7 @@ theorem whole_walk (env : PEnv) (orc : EvalOracles) (expr : Expr) (exprs : List 
       wp (WholeAllSafe env orc exprs files0) (walk env orc expr fuel md st)
         (fun r w' => WholeInv env orc exprs files0 w' r.1 ∧ WholeMdOk w' r.2) w := by
   induction fuel with
-  | zero => intro md st w hinv hmd; exact ⟨hinv, hmd⟩
+  | zero => intro md st w hinv hmd; exact ⟨⟨hinv.reg, hinv.track⟩, hmd⟩
   | succ fuel ih =>
     intro md st w hinv hmd
     rw [Own.walk_succ]
